@@ -393,6 +393,7 @@ def stage_run(prop, tier, seed, st, res):
     plan = cfg["runs"][tier]
     dist = {}
     t0 = time.time()
+    run_corpus(prop, st, res)
     for k, (mode, profile, cases, extra) in enumerate(plan):
         tag = "r%d" % k
         if mode == "sweep":
@@ -417,10 +418,44 @@ def stage_run(prop, tier, seed, st, res):
     st["distribution"] = {k: v[:2] for k, v in dist.items()}
 
 
+def run_corpus(prop, st, res):
+    """minimised regression cases and finding witnesses run first"""
+    idx_p = os.path.join(ROOT, "corpus", "index.json")
+    if not os.path.exists(idx_p):
+        return
+    n = 0
+    st["corpus"] = []
+    for e in json.load(open(idx_p)):
+        if e["property"] != prop:
+            continue
+        path = os.path.join(ROOT, "corpus", e["file"])
+        code, out = run(["bash", "-c", "set -o pipefail; %s replay %s --mode %s | %s /dev/stdin" % (HARNESS, path, e["mode"], DRIVER)], timeout=300)
+        tmp = os.path.join(WORK, prop, "corpus.%d.out" % n)
+        with open(tmp, "w") as f:
+            f.write(out)
+        before = len(res.kfs), len(res.oras), len(res.divs)
+        parse_driver_output(tmp, "corpus:" + e["file"], 0, res)
+        os.remove(tmp)
+        got_kf = [k.get("id") for k in res.kfs[before[0]:]]
+        st["corpus"].append({"file": e["file"], "expect": e["expect"], "kf": got_kf,
+                             "ora": len(res.oras) - before[1], "div": len(res.divs) - before[2]})
+        n += 1
+    if prop == "C11":
+        code, out = run([HARNESS, "kf3"], timeout=300)
+        st["kf3"] = out.strip()[:300]
+        if "KF3 fails" in out:
+            res.kfs.append({"prop": "C11", "id": "KF-C11-3", "profile": "corpus:kf3", "seed": 0, "raw": out.strip()[:300]})
+        elif "KF3 passes" not in out:
+            res.errors.append("kf3 witness did not run: " + out[-300:])
+
+
 # --------------------------------------------------------------------------------------
 # replay / shrinking
 # --------------------------------------------------------------------------------------
 def fetch_case(mode, profile, seed, index):
+    if str(profile).startswith("corpus:"):
+        p = os.path.join(ROOT, "corpus", profile[7:])
+        return open(p).read() if os.path.exists(p) else None
     code, out = run([HARNESS, "case", "--mode", mode, "--profile", profile, "--seed", str(seed), "--index", str(index)], timeout=60)
     return out if code == 0 else None
 
@@ -604,6 +639,8 @@ def main(argv):
 
 
 def line_pred_ora(prop):
+    if prop == "C01":
+        return lambda l: l.startswith("ORA prop=C01 ") or (l.startswith("DIV ") and ("panic.impl" in l or "hang.impl" in l))
     return lambda l: l.startswith("ORA prop=%s " % prop)
 
 
@@ -618,6 +655,10 @@ def line_pred_div(prop):
 
 
 def mode_of_profile(prop, profile):
+    if str(profile).startswith("corpus:"):
+        for e in json.load(open(os.path.join(ROOT, "corpus", "index.json"))):
+            if e["file"] == profile[7:]:
+                return e["mode"]
     for tier in ("quick", "thorough"):
         for (mode, pr, cases, extra) in PROPS[prop]["runs"][tier]:
             if pr == profile:
@@ -630,6 +671,13 @@ def verdict(prop, tier, seed, st, res, t_start, tr_ok, pr_ok, shrink=True):
     known_ids = {k["id"] for k in known}
     my_oras = [o for o in res.oras if o.get("prop") == prop]
     my_divs = [d for d in res.divs if div_relevant(prop, d)]
+    if prop == "C01":
+        # an implementation panic / hang is itself the failing input
+        for d in res.divs:
+            if any(c in ("panic.impl", "hang.impl") for c in d.get("comps", [])):
+                o = dict(d)
+                o["prop"] = "C01"
+                my_oras.append(o)
     my_kfs = [k for k in res.kfs if k.get("prop") == prop]
     unknown_kfs = [k for k in my_kfs if k.get("id") not in known_ids]
     violations = []
@@ -640,6 +688,8 @@ def verdict(prop, tier, seed, st, res, t_start, tr_ok, pr_ok, shrink=True):
         if item.get("profile") not in (None, "sweep") and "case" in item:
             mode = mode_of_profile(prop, item["profile"])
             case_text = fetch_case(mode, item["profile"], item["seed"], int(item["case"]))
+            if not str(item["profile"]).startswith("corpus:"):
+                mode = "%s --profile %s" % (mode, item["profile"])
             if case_text and shrink:
                 try:
                     if case_fails(case_text, pred, mode):
